@@ -35,7 +35,11 @@ def one(rec, hub, seed, tier, i):
             s.compute()
         elif which == 1:
             cfg = dsm.make_config(fd, rng, tier, wide_p=0.008)
-            s = dsm.make_stock(fd, cfg, "InflowDrivenDSM", inflow=dsm.driver_values(rng, cfg["shape"], str(rng.choice(["positive", "mixed"]))))
+            drv_kind = str(rng.choice(["positive", "mixed"]))
+            xin = dsm.driver_values(rng, cfg["shape"], drv_kind)
+            if len(cfg["items"]) <= 30 and (rng.random() < 0.1 or cfg.get("very_long")):
+                xin = np.abs(xin) * 10.0 ** float(rng.uniform(9.0, 11.3))  # throughputs around 1e13 (kilograms of a bulk material): the balance still closes to the tonne
+            s = dsm.make_stock(fd, cfg, "InflowDrivenDSM", inflow=xin)
             s.compute()
         else:
             cfg, lm = dsm.make_solvable(fd, rng, tier)
@@ -53,6 +57,15 @@ def one(rec, hub, seed, tier, i):
             # and a second stock of the other kind that shares the lifetime-model instance
             other = dsm.make_stock(fd, cfg, "InflowDrivenDSM", lm=s.lifetime_model, inflow=np.abs(np.asarray(s.inflow.values, dtype=float)))
             other.compute()
+        if hasattr(s, "lifetime_model") and rng.random() < 0.2:
+            # a shallow copy of the stock's lifetime model (model_copy() / copy.copy) is given other parameters and used; the stock,
+            # computed again with its own model, is what it was
+            import copy as _copy
+
+            lm_cp = s.lifetime_model.model_copy() if rng.random() < 0.5 else _copy.copy(s.lifetime_model)
+            lm_cp.set_prms(**{pn: np.array(v) * (1.7 if pn in ("mean", "weibull_scale") else 1.0) for pn, v in cfg["truth"].items()})
+            lm_cp.sf, lm_cp.pdf
+            s.compute()
         if hasattr(s, "lifetime_model") and rng.random() < 0.25:
             # the same object once more with a driver that is zero everywhere (a scenario without the product): every result,
             # the cohort tables included, is that of an empty stock
@@ -70,6 +83,29 @@ def one(rec, hub, seed, tier, i):
             if rng.random() < 0.5:
                 lm.sf
             s.compute()
+
+
+def far_tail_sweep(rec, hub, rng):
+    """Lifetimes far beyond the horizon, swept so that the horizon ends 5 ... 9 standard deviations before the mean, with throughputs of
+    1e11 ... 1e13: the outflow shares are the far tail of the distribution (1e-7 ... 1e-19) - tiny, but times such throughputs they are
+    tonnes, and the balance of the computed stock closes all the same (judged by the monitors on compute())"""
+    fd = hub.fd
+    n = int(rng.integers(8, 14))
+    tdim = fd.Dimension(letter="t", name="time", items=[2000 + j for j in range(n)])
+    dims = fd.DimensionSet(dim_list=[tdim])
+    mean = float(rng.uniform(100.0, 200.0))
+    for z in np.arange(5.0, 9.01, 0.25):
+        std = (mean - n) / float(z)
+        for model in ("NormalLifetime", "FoldedNormalLifetime"):
+            for mag in (1e11, 1e12, 1e13):
+                cls_ = str(rng.choice(["InflowDrivenDSM", "StockDrivenDSM"]))
+                lm = getattr(fd, model)(dims=dims, time_letter="t", mean=mean, std=std)
+                if cls_ == "InflowDrivenDSM":
+                    s = fd.InflowDrivenDSM(dims=dims, inflow=fd.StockArray(dims=dims, values=rng.uniform(0.5, 1.0, size=(n,)) * mag), lifetime_model=lm, time_letter="t")
+                else:
+                    s = fd.StockDrivenDSM(dims=dims, stock=fd.StockArray(dims=dims, values=np.cumsum(rng.uniform(0.5, 1.0, size=(n,))) * mag), lifetime_model=lm, time_letter="t", solver=str(rng.choice(["manual", "lapack"])))
+                with dsm.quiet():
+                    s.compute()
 
 
 def throughflow_case(rec, hub, rng):
@@ -119,6 +155,9 @@ def run(rec, hub, tier, seed, shard, nshards, budget):
             one(rec, hub, seed, tier, i)
         except Exception as e:
             rec.violation(S.M03, "compute-raised-on-a-valid-configuration", {"exc": repr(e)[:300]})
+        if k == 5:
+            rec.set_case(driver="c03.fartail", seed=seed, tier=tier, shard=shard, nshards=nshards, idx=i)
+            far_tail_sweep(rec, hub, case_nprng(seed, "c03.fartail", 0, i))
         if k % 25 == 3:
             rec.set_case(driver="c03.throughflow", seed=seed, tier=tier, shard=shard, nshards=nshards, idx=i)
             throughflow_case(rec, hub, case_nprng(seed, "c03.throughflow", 0, i))
@@ -130,6 +169,9 @@ def replay(rec, hub, case):
     bystand.register(hub, "C03")
     S.register_compute(hub, PROPS)
     rec.set_case(**case)
+    if case["driver"] == "c03.fartail":
+        far_tail_sweep(rec, hub, case_nprng(case["seed"], "c03.fartail", 0, case["idx"]))
+        return
     if case["driver"] == "c03.throughflow":
         throughflow_case(rec, hub, case_nprng(case["seed"], "c03.throughflow", 0, case["idx"]))
         return
